@@ -17,7 +17,7 @@
 Simple audio/stream synthesis module
 """
 
-from math import sin, pi, ceil, isinf
+from math import sin, pi, ceil, floor, isinf
 try:
   from collections.abc import Iterable
 except ImportError:
@@ -547,8 +547,9 @@ class TableLookup(meta(metaclass=TableLookupMeta)):
     """
     total_length = len(self)
     tbl = self.table
-    return tbl[int(idx) % total_length] * (1. - (idx - int(idx))) + \
-           tbl[int(ceil(idx)) % total_length] * (idx - int(idx))
+    low = int(floor(idx)) # Not int(idx), that rounds negative values up
+    return tbl[low % total_length] * (1. - (idx - low)) + \
+           tbl[int(ceil(idx)) % total_length] * (idx - low)
 
   def __eq__(self, other):
     if isinstance(other, TableLookup):
